@@ -112,6 +112,41 @@ def dseq_task(task):
     return sh
 
 
+def dseqc_task(task):
+    """dseq FIRST +Nd|w Mmo|y LAST: every element is the one before plus the compound increment, as dadd adds it"""
+    bindir, o, dd, unit, mm, count = task
+    sh = Shard()
+    xs = [o]
+    for _ in range(count):
+        t = xs[-1] + dd * (7 if unit == "w" else 1)
+        if not dur.in_range(t) or cal.Day(t).d > 28:
+            break
+        t = dur.add_months_ymd(t, mm)
+        if t is None or not dur.in_range(t):
+            break
+        xs.append(t)
+    if len(xs) < 3:
+        return sh
+    inc = "%+d%s%+d%s" % (dd, unit, mm if mm % 12 else mm // 12, "mo" if mm % 12 else "y")
+    exp = [cal.Day(t).ymd() for t in xs]
+    argv = [str(bindir / "dseq"), exp[0], inc, exp[-1]]
+    r = run(argv, cpu=20, wall=120, max_out=1 << 20)
+    sh.procs += 1
+    if sh.check_san(r, "san", "dseqc:san"):
+        return sh
+    got = r.out.decode("latin-1").split("\n")[:-1]
+    c = ("dseq-compound", unit, "+" if dd > 0 else "-", "mo" if mm % 12 else "y")
+    if got == exp:
+        sh.ok("dseqmo", c, n=len(exp))
+    else:
+        bad = next((i for i, (a, b) in enumerate(zip(got, exp)) if a != b), min(len(got), len(exp)))
+        sh.bad("dseqmo", "dseqc:%s:%s:%s" % (unit, c[3], "count" if len(got) != len(exp) else "value"),
+               "%s: element %d is %r, expected %r (%d/%d lines)" % (core.shq(argv), bad, got[bad] if bad < len(got) else None,
+                                                                    exp[bad] if bad < len(exp) else None, len(got), len(exp)),
+               res_replay(r, expected=exp[:50]), cls=c)
+    return sh
+
+
 ZONES = ["Europe/Berlin", "America/New_York", "Australia/Lord_Howe", "Asia/Kolkata", "Pacific/Auckland", "America/St_Johns"]
 _ZC = {}
 
@@ -177,6 +212,8 @@ def zone_task(task):
 def _dispatch(t):
     if t[0] == "zone":
         return zone_task(t[1])
+    if t[0] == "dseqc":
+        return dseqc_task(t[1])
     return dseq_task(t[1]) if t[0] == "dseq" else addsweep.add_task(t[1])
 
 
@@ -261,7 +298,7 @@ def main(tier, seed):
             if outs[i % len(outs)] is not None:
                 cross.append(("add", t[1] + (outs[i % len(outs)],)))
     tasks += cross
-    tasks = [t for t in tasks if t[0] == "dseq" or t[1][4]]
+    tasks = [t for t in tasks if t[0] in ("dseq", "dseqc") or t[1][4]]
     # date-times in a zone's wall clock
     zdays = [o for o in ymd_days if date(1975, 1, 1).toordinal() <= o <= date(2036, 12, 31).toordinal()]
     for zone in ZONES:
@@ -282,6 +319,13 @@ def main(tier, seed):
             cases = [(rng.choice(zdays), rng.choice([0, 1800, 3600, 7199, 9000, 43200, 75600, 84600, 86399, rng.randrange(86400)]))
                      for _ in range(150)]
             tasks.append(("zone", (bindir, zone, durs, nm, cases)))
+    # compound increments, day or week part first
+    for _ in range(60 if quick else 1500):
+        o = rng.choice(rnd)
+        if cal.Day(o).d > 20:
+            o -= 10
+        sg = rng.choice([1, 1, -1])
+        tasks.append(("dseqc", (bindir, o, sg * rng.choice([1, 1, 2, 3]), rng.choice(["d", "d", "w"]), sg * rng.choice([1, 1, 2, 12, 24]), rng.randrange(3, 9))))
     tasks.sort(key=lambda t: -(len(t[1][4]) if t[0] in ("add", "zone") else 50))
     for sh in core.pmap(_dispatch, tasks):
         ctx.merge(sh)
@@ -289,7 +333,7 @@ def main(tier, seed):
                 "the oracle (year/month moved by exactly N, day | weekday-count | business-day index | ISO week | "
                 "day-of-year kept and clamped); start days: dom in {1,15,28..31} of every month, ymcw count>=4, "
                 "ywd week>=52, yd Dec 30/31, bizda index>=19, plus random; N months +-%s, quarters +-%s, years "
-                "+-%s, random; two-step compositions in one invocation, a day or week step behind a month/year step (it counts from the clamped date); dseq A Nmo B sequences, also anchored on B (--compute-from-last); date-times in a zone's "
+                "+-%s, random; two-step compositions in one invocation, a day or week step behind a month/year step (it counts from the clamped date); dseq A Nmo B sequences, also anchored on B (--compute-from-last), and with compound increments (+1d1mo, -1w-1y: each element is the one before plus the increment); date-times in a zone's "
                 "wall clock (dadd --from-zone Z --zone Z, 6 zones, operand on stdin lines and as the argument): the wall-clock "
                 "date moves by N months/years (clamped), the time of day stays, judged where both readings exist exactly once. "
                 "distinct_nontrivial = distinct (calendar, unit tag, sign, carry class, weekday)" %
